@@ -191,8 +191,8 @@ func (c *sconn) Close() error {
 	c.ev("close")
 	return nil
 }
-func (c *sconn) LocalAddr() net.Addr               { return addr{} }
-func (c *sconn) RemoteAddr() net.Addr              { return addr{} }
+func (c *sconn) LocalAddr() net.Addr  { return addr{} }
+func (c *sconn) RemoteAddr() net.Addr { return addr{} }
 func (c *sconn) SetDeadline(t time.Time) error {
 	_ = c.SetReadDeadline(t)
 	return c.SetWriteDeadline(t)
